@@ -171,7 +171,7 @@ fn step(cx: &mut Cx, y: &KeyRegistryState<usize>, m: &Model, now: u64, path: &mu
                 Ok(y2) => Some((y2, m2, now)),
                 Err(p) => {
                     let rp = replay(path);
-                    cx.acc.violation("registry-panics/remove_expired", format!("[{}] panicked: {p}", trace(path)), rp);
+                    cx.acc.violation("registry-panics/remove_expired", format!("[{}] panicked: {p}", trace(path)), rp, rank(path, now, None));
                     None
                 }
             }
@@ -188,7 +188,7 @@ fn step(cx: &mut Cx, y: &KeyRegistryState<usize>, m: &Model, now: u64, path: &mu
             match r {
                 Err(p) => {
                     let rp = replay(path);
-                    cx.acc.violation(format!("registry-panics/add_{kind}"), format!("[{}] panicked: {p}", trace(path)), rp);
+                    cx.acc.violation(format!("registry-panics/add_{kind}"), format!("[{}] panicked: {p}", trace(path)), rp, rank(path, now, None));
                     None
                 }
                 Ok(Ok(y2)) => {
@@ -206,6 +206,7 @@ fn step(cx: &mut Cx, y: &KeyRegistryState<usize>, m: &Model, now: u64, path: &mu
                                 b.sig
                             ),
                             rp,
+                            rank(path, now, None),
                         );
                         None
                     } else {
@@ -220,6 +221,7 @@ fn step(cx: &mut Cx, y: &KeyRegistryState<usize>, m: &Model, now: u64, path: &mu
                             format!("rejected-valid/{kind}"),
                             format!("[{}] at wall clock T0{:+}: a correctly signed bundle whose lifetime (T0{:+}, T0{:+}) strictly contains now was rejected: {e}", trace(path), now as i64 - T0 as i64, b.nb as i64 - T0 as i64, b.na as i64 - T0 as i64),
                             rp,
+                            rank(path, now, None),
                         );
                         None
                     } else {
@@ -245,7 +247,7 @@ fn step(cx: &mut Cx, y: &KeyRegistryState<usize>, m: &Model, now: u64, path: &mu
             match r {
                 Err(p) => {
                     let rp = replay(path);
-                    cx.acc.violation(format!("registry-panics/key_bundle_{kind}"), format!("[{}] panicked: {p}", trace(path)), rp);
+                    cx.acc.violation(format!("registry-panics/key_bundle_{kind}"), format!("[{}] panicked: {p}", trace(path)), rp, rank(path, now, None));
                     None
                 }
                 Ok(Err(e)) => {
@@ -260,7 +262,7 @@ fn step(cx: &mut Cx, y: &KeyRegistryState<usize>, m: &Model, now: u64, path: &mu
                 Ok(Ok((y2, Some(i)))) => {
                     if i == usize::MAX {
                         let rp = replay(path);
-                        cx.acc.violation(format!("returned-unknown-bundle/{kind}"), format!("[{}]: key_bundle returned a bundle that was never added", trace(path)), rp);
+                        cx.acc.violation(format!("returned-unknown-bundle/{kind}"), format!("[{}]: key_bundle returned a bundle that was never added", trace(path)), rp, rank(path, now, None));
                         return None;
                     }
                     let b = &pool[i];
@@ -270,11 +272,11 @@ fn step(cx: &mut Cx, y: &KeyRegistryState<usize>, m: &Model, now: u64, path: &mu
                     let self_check = if kind == "longterm" { b.longterm.verify().is_ok() } else { b.onetime.verify().is_ok() };
                     if !accepted.contains(&i) {
                         let rp = replay(path);
-                        cx.acc.violation(format!("returned-never-accepted-bundle/{kind}"), format!("[{}]: key_bundle returned bundle {} which the registry had rejected", trace(path), b.name), rp);
+                        cx.acc.violation(format!("returned-never-accepted-bundle/{kind}"), format!("[{}]: key_bundle returned bundle {} which the registry had rejected", trace(path), b.name), rp, rank(path, now, None));
                         None
                     } else if b.sig != Sig::Valid {
                         let rp = replay(path);
-                        cx.acc.violation(format!("returned-invalid/{kind}/signature"), format!("[{}]: key_bundle returned bundle {} whose signature does not verify", trace(path), b.name), rp);
+                        cx.acc.violation(format!("returned-invalid/{kind}/signature"), format!("[{}]: key_bundle returned bundle {} whose signature does not verify", trace(path), b.name), rp, rank(path, now, None));
                         None
                     } else if !b.lifetime_valid(now) {
                         let rp = replay(path);
@@ -290,6 +292,7 @@ fn step(cx: &mut Cx, y: &KeyRegistryState<usize>, m: &Model, now: u64, path: &mu
                                 if self_check { "valid" } else { "invalid" }
                             ),
                             rp,
+                            rank(path, now, Some(b.lifetime_class(now))),
                         );
                         // keep exploring behind the violation: the state is still meaningful
                         m2.returned += 1;
@@ -311,6 +314,18 @@ fn step(cx: &mut Cx, y: &KeyRegistryState<usize>, m: &Model, now: u64, path: &mu
         }
     }
     out
+}
+
+/// Representative choice: fewest actions first, then clearly expired before not-yet-valid before
+/// the exact boundary, then the shortest text.
+fn rank(path: &[Act], _now: u64, class: Option<&str>) -> u64 {
+    let c = match class {
+        Some("lifetime-expired") => 0,
+        Some("lifetime-not-yet-valid") => 1,
+        Some("lifetime-boundary") => 2,
+        _ => 3,
+    };
+    path.len() as u64 * 10 + c
 }
 
 fn dfs(cx: &mut Cx, y: &KeyRegistryState<usize>, m: &Model, now: u64, path: &mut Vec<Act>, first: Option<usize>) {
@@ -367,11 +382,10 @@ pub fn run(mut rep: Report) -> i32 {
         clock::release();
         cx.acc
     });
-    let mut extra = vec![];
-    for (i, acc) in results.into_iter().enumerate() {
+    for (i, acc) in results.iter().enumerate() {
         rep.part(json!({"part": "registry", "first_action": act_name(&pool, &acts[i]), "sequences": acc.evals}));
-        acc.merge_into(&mut rep, &mut extra);
     }
+    crate::par::merge_all(&mut rep, results);
     // Full cross product lifetimes x signatures, single adds at every clock reading (depth 2:
     // clock, add) — covers the combinations left out of the sequence alphabet.
     let full = build_pool(true);
